@@ -133,6 +133,7 @@ func TestC03(t *testing.T) {
 			}
 			c.Count(fmt.Sprintf("linksystem_cfg_%d", i%3), 1)
 			rr := c.Rand()
+			walkNo := 0
 			walk := func(path string, spec selbuilder.SelectorSpec, matchPath bool) ([]matchRec, error) {
 				raw, err := loadRaw(st.LinkSystem(false), root.Cid)
 				if err != nil {
@@ -150,6 +151,19 @@ func TestC03(t *testing.T) {
 						ms = append(ms, recordMatch(p, n))
 						return nil
 					})
+					walkNo++
+					if werr == nil && walkNo%5 == 0 {
+						// the same compiled selector walked a second time from the same root: same matches
+						var again []matchRec
+						e2 := progressFor(ls).WalkMatching(raw, sel, func(p traversal.Progress, n datamodel.Node) error {
+							again = append(again, recordMatch(p, n))
+							return nil
+						})
+						c.Count("selectors_walked_twice", 1)
+						if e2 != nil || fmt.Sprint(again) != fmt.Sprint(ms) {
+							c.Violation("C03|second-walk-differs", "path %q: walking the compiled selector a second time gives %d matches (err %v), the first walk gave %d", path, len(again), e2, len(ms))
+						}
+					}
 				})
 				c.Count("traversals", 1)
 				return ms, werr
